@@ -2,7 +2,7 @@
 (* Trace validation for MapRun.  One ndjson line = one history of runs on one pipeline and run folder:     *)
 (*   {desc, inputs, ev: [{e, F, cleanup, fixed, f, kwargs, results, loaded, cls, args, attributed, disk}]}  (all fields always present)     *)
 (* e in begin | call | ret | fail | return | raise | reject                                                 *)
-EXTENDS MapRun, Json, IOUtils, TLCExt
+EXTENDS MapRun, MapFixed, Json, IOUtils, TLCExt
 Traces == ndJsonDeserialize(IOEnv.TRACE_FILE)
 NT == Len(Traces)
 ASSUME \A i \in 1..NT : TLCSet(i, 0)
@@ -18,7 +18,16 @@ Init == tid \in 1..NT /\ l = 1 /\ MapInit(T.desc, T.inputs) /\ exc = NoExc
 FByName(n) == CHOOSE i \in FIdx(d) : d.funcs[i].name = n
 FSet(names) == {FByName(names[k]) : k \in DOMAIN names}
 
-TBegin  == IsEvent("begin") /\ Begin([F |-> FSet(Ev.F), cleanup |-> Ev.cleanup, fixed |-> Ev.fixed]) /\ exc' = NoExc
+(* fixed_indices arrive raw (ints / slices); the selection is computed here *)
+FixedOf(raw) == LET env == MapDenoteF(d, inp, FSet(Ev.F)) IN Resolve(d, env, raw)
+TBegin  == IsEvent("begin")
+           /\ (Len(Ev.fixedraw) > 0 => ValidFixed(d, MapDenoteF(d, inp, FSet(Ev.F)), Ev.fixedraw))
+           /\ Begin([F |-> FSet(Ev.F), cleanup |-> Ev.cleanup,
+                     fixed |-> IF Len(Ev.fixedraw) > 0 THEN FixedOf(Ev.fixedraw) ELSE Ev.fixed]) /\ exc' = NoExc
+(* C06 PartExact: what is completely stored now is exactly what the model says (earlier parts + this selection) *)
+TStored == IsEvent("stored") /\ phase = "idle" /\ UNCHANGED mvars /\ UNCHANGED exc
+           /\ StoredFromDisk({<<Ev.disk[k][1], Ev.disk[k][2]>> : k \in DOMAIN Ev.disk}) = stored
+           /\ stored \subseteq EveryElement
 TCall   == IsEvent("call") /\ (LET i == FByName(Ev.f) IN \E t \in CallPositions(i) : Call(i, t, Ev.kwargs)) /\ UNCHANGED exc
 TRet    == IsEvent("ret")  /\ (LET i == FByName(Ev.f) IN
               \E t \in CallPositions(i) : ElemKwargs(d, den, i, t) = Ev.kwargs /\ Ret(i, t)) /\ UNCHANGED exc
@@ -33,7 +42,9 @@ TRaise  == IsEvent("raise") /\ Raise /\ UNCHANGED exc
            /\ \A k \in DOMAIN Ev.loaded : Ev.loaded[k][2] = den[Ev.loaded[k][1]]
 (* a request the specification calls invalid must be rejected before anything happens *)
 TReject == IsEvent("reject") /\ phase = "idle"
-           /\ ~ValidMapRequestF(d, inp, FSet(Ev.F)) /\ UNCHANGED mvars /\ UNCHANGED exc
+           /\ (~ValidMapRequestF(d, inp, FSet(Ev.F))
+               \/ (Len(Ev.fixedraw) > 0 /\ ~ValidFixed(d, MapDenoteF(d, inp, FSet(Ev.F)), Ev.fixedraw)))
+           /\ UNCHANGED mvars /\ UNCHANGED exc
 
 (* C04: what load_outputs / RunInfo.load return afterwards, in the same or in a fresh process, any number of times:  *)
 (* outputs = denotation, inputs and defaults = what was given, shapes / masks / MapSpec strings / storage choices = the  *)
@@ -57,7 +68,7 @@ TLoad == IsEvent("load") /\ phase = "idle" /\ UNCHANGED mvars /\ UNCHANGED exc
 (* the run was interrupted (process death / exception); Ev.disk = what is completely stored afterwards *)
 TInterrupt == IsEvent("interrupt") /\ Interrupt({<<Ev.disk[k][1], Ev.disk[k][2]>> : k \in DOMAIN Ev.disk}) /\ exc' = NoExc
 
-Next == TLoad \/ TInterrupt \/ TBegin \/ TCall \/ TRet \/ TFail \/ TReturn \/ TRaise \/ TReject
+Next == TStored \/ TLoad \/ TInterrupt \/ TBegin \/ TCall \/ TRet \/ TFail \/ TReturn \/ TRaise \/ TReject
 Spec == Init /\ [][Next]_<<mvars, tid, l, exc>>
 
 Track == IF l > TLCGet(tid) THEN TLCSet(tid, l) ELSE TRUE
